@@ -29,6 +29,10 @@
 *)
 EXTENDS Naturals, Integers, Sequences, FiniteSets, TLC
 
+\* Deadlines are judged with a tolerance: an event that falls into the last SlackMs before a deadline may be
+\* seen or missed (any implementation has processing latency; only the pinned one has none in virtual time).
+SlackMs == 150
+
 SuccessCode       == 16   \* 0x10 routing activation successful
 TargetUnreachable == 6
 
@@ -42,14 +46,17 @@ ForUs(c, f)   == f.src = c.tgt /\ f.dst = c.src
 PrevOk(f, d)  == Len(f.d) = 0 \/ (Len(f.d) <= Len(d) /\ f.d = SubSeq(d, 1, Len(f.d)))
 AckKind(f)    == IF f.k = "Ack" THEN "pos" ELSE IF f.code = TargetUnreachable THEN "tu" ELSE "bad"
 
+\* the earlier of the acknowledgement deadline and the caller's own deadline
+WriteDeadline(c, m) == IF m.tmo # -1 /\ m.tmo < c.ackTime THEN m.t0 + m.tmo ELSE m.t0 + c.ackTime
+
 OnFeed(c, m, t, f) ==
   CASE f.k = "Diag" /\ ForUs(c, f) -> [m EXCEPT !.sent = Append(@, [d |-> f.d, t |-> t])]
     [] f.k = "AliveReq" -> [m EXCEPT !.alive = Append(@, t + c.aliveTime)]
     [] f.k \in {"Ack", "Nack"} /\ ForUs(c, f) ->
          IF m.op = "write" /\ m.decisive = "none" /\ PrevOk(f, m.d)
-         THEN [m EXCEPT !.decisive = AckKind(f)]
+         THEN [m EXCEPT !.decisive = IF t > WriteDeadline(c, m) - SlackMs THEN "late" ELSE AckKind(f)]
          ELSE IF m.op # "write" /\ m.lastFail.on /\ f.k = "Ack" /\ PrevOk(f, m.lastFail.d)
-                 /\ t <= m.lastFail.t0 + c.ackTime /\ m.closedAt = -1
+                 /\ t <= m.lastFail.t0 + c.ackTime - SlackMs /\ m.closedAt = -1
               THEN Fail(m, "D4/write-failed-before-the-acknowledgement-time-although-acknowledged-in-time")
               ELSE [m EXCEPT !.unspecNext = TRUE]   \* an acknowledgement nobody waits for
     [] f.k = "HeaderNack" -> [m EXCEPT !.unspec = TRUE, !.unspecNext = TRUE]
@@ -83,7 +90,7 @@ EndRead(c, m, e) ==
          THEN [m EXCEPT !.ndel = @ + 1]
          ELSE Fail(m, "D2/read-delivered-something-else-than-the-next-message-for-us")
     [] e.res = "Timeout" ->
-         IF m.closedAt = -1 /\ m.ndel < Len(m.sent) /\ m.sent[m.ndel + 1].t < e.t
+         IF m.closedAt = -1 /\ m.ndel < Len(m.sent) /\ m.sent[m.ndel + 1].t < e.t - SlackMs
          THEN Fail(m, "D3/message-for-us-available-but-read-timed-out")
          ELSE IF m.tmo = -1 \/ e.t < m.t0 + m.tmo THEN Fail(m, "read/timeout-before-the-caller-deadline")
          ELSE m
@@ -97,12 +104,12 @@ EndWrite(c, m, e) ==
   ELSE
   CASE e.res = "ok" ->
          IF ~m.wrote THEN Fail(m, "D4/write-completed-without-transmission")
-         ELSE IF m.decisive \in {"pos", "tu"} THEN m
+         ELSE IF m.decisive \in {"pos", "tu", "late"} THEN m
          ELSE Fail(m, "D4/write-completed-without-acknowledgement")
     [] e.res = "ConnErr" ->
          IF m.decisive \in {"pos", "tu"} THEN Fail(m, "D4/write-failed-although-acknowledged")
-         ELSE IF m.decisive = "bad" THEN m
-         ELSE IF e.t > m.t0 + c.ackTime THEN Fail(m, "D4/connection-error-later-than-the-acknowledgement-time")
+         ELSE IF m.decisive \in {"bad", "late"} THEN m
+         ELSE IF e.t > m.t0 + c.ackTime + SlackMs THEN Fail(m, "D4/connection-error-later-than-the-acknowledgement-time")
          ELSE [m EXCEPT !.lastFail = [t0 |-> m.t0, d |-> m.d, on |-> (m.closedAt = -1 \/ m.closedAt >= e.t)]]
     [] e.res = "Timeout" ->
          IF m.decisive \in {"pos", "tu"} THEN Fail(m, "D4/write-timed-out-although-acknowledged")
